@@ -258,7 +258,7 @@ class ModelInterp(Interp):
         if isinstance(e, ast.DictComp):
             out = {}
             for env in self._iter_gens(e.generators, dict(self.names)):
-                sub = ModelInterp(self.atoms, env)
+                sub = self._sub(env)
                 out[sub.ev(e.key)] = sub.ev(e.value)
             return out
         if isinstance(e, ast.BinOp) and isinstance(e.op, ast.Add):
@@ -286,17 +286,25 @@ class ModelInterp(Interp):
                 raise Raises("TypeError", u(e)[:60])
         return super().ev(e)
 
+    def _sub(self, env):
+        """A nested interpreter of the SAME class (overrides of _call / ev stay in force inside comprehensions)."""
+        sub = type(self).__new__(type(self))
+        sub.__dict__.update(self.__dict__)
+        sub.names = env
+        sub.calls = sub._call
+        return sub
+
     def _iter_gens(self, gens, env):
         if not gens:
             yield env
             return
         g = gens[0]
-        sub = ModelInterp(self.atoms, env)
+        sub = self._sub(env)
         it = sub.ev(g.iter)
         for item in it:
             env2 = dict(env)
             self._bind(g.target, item, env2)
-            s2 = ModelInterp(self.atoms, env2)
+            s2 = self._sub(env2)
             if all(s2.truth(s2.ev(c)) for c in g.ifs):
                 yield from self._iter_gens(gens[1:], env2)
 
@@ -311,7 +319,7 @@ class ModelInterp(Interp):
     def _comp(self, e):
         out = []
         for env in self._iter_gens(e.generators, dict(self.names)):
-            out.append(ModelInterp(self.atoms, env).ev(e.elt))
+            out.append(self._sub(env).ev(e.elt))
         return out
 
     def _call(self, c: ast.Call, it: "Interp"):
@@ -386,6 +394,16 @@ class ModelInterp(Interp):
                 return set(recv).issubset(set(args[0]))
             if m == "intersection":
                 return set(recv) & set(args[0])
+            if m == "isdisjoint":
+                return set(recv).isdisjoint(set(args[0]))
+            if m == "union":
+                return set(recv) | set(args[0])
+            if m == "values" and isinstance(recv, dict):
+                return list(recv.values())
+            if m == "isdigit" and isinstance(recv, str):
+                return recv.isdigit()
+            if m == "startswith" and isinstance(recv, str):
+                return recv.startswith(args[0])
             raise DTop(f"method {m}")
         raise DTop("call")
 
@@ -463,6 +481,14 @@ class SymInterp(Interp):
                 return Sym(u(e))
         if isinstance(e, ast.Call) and is_call_to(e, "__raise__"):
             return super().ev(e)
+        if isinstance(e, ast.Attribute) and isinstance(e.value, (ast.IfExp, ast.BoolOp)):
+            # (a if t else b).attr / (a or b).attr: the attribute of whichever object is selected
+            base = self.ev(e.value)
+            if isinstance(base, Sym):
+                return Sym(f"{base.text}.{e.attr}")
+            if base is None:
+                raise Raises("AttributeError", u(e)[:60])
+            return Sym(u(e))
         return Sym(u(e))
 
     def compare(self, op, a, b):  # type: ignore[override]
